@@ -526,6 +526,9 @@ def run_case(case):
   finally:
     sw.close()
   out.nontrivial = nt[0]
+  if case.get("seq"):
+    out.labels = ["seq"] + sorted(set("seq:" + l for l in out.labels
+                                      if l.startswith(("blocked:", "ingress-", "fault-", "portmod-between", "link-", "table-lookup", "miss-with"))))
   if case.get("grid"):
     # keep the evidence readable: the grid is one fixed scenario, only its port-rule classes are of interest
     out.labels = ["grid"] + sorted(set("grid:" + l for l in out.labels
@@ -1162,34 +1165,36 @@ def step_strategy(draw, nports, mode=None):
 
 
 @st.composite
+def _portmod(draw, nports):
+  bits = draw(st.integers(0, 63))
+  config = sum(b for i, (n, b) in enumerate(BITS) if bits >> i & 1)
+  mk = draw(st.integers(0, 9))
+  if mk <= 5:
+    mask = config
+  elif mk <= 7:
+    mask = KNOWN_BITS
+  else:
+    mb = draw(st.integers(0, 63))
+    mask = sum(b for i, (n, b) in enumerate(BITS) if mb >> i & 1)
+  if draw(st.integers(0, 9)) == 9:
+    config |= draw(st.sampled_from([R.OFPPC_NO_STP, 0x80, 0x80000000]))
+    mask |= draw(st.sampled_from([R.OFPPC_NO_STP, 0x80, 0x80000000]))
+  return {"port": nports + 1 if draw(st.integers(0, 11)) == 11 else draw(_phys_port(nports)),
+          "config": config, "mask": mask, "hw": draw(st.integers(0, 11)) != 11}
+
+
+@st.composite
 def case_strategy(draw):
   nports = draw(st.sampled_from([1, 2, 3, 4, 4, 4, 5]))
   case = {"nports": nports}
   if draw(st.booleans()):
-    pms = []
-    for _ in range(draw(st.integers(1, 3))):
-      bits = draw(st.integers(0, 63))
-      config = sum(b for i, (n, b) in enumerate(BITS) if bits >> i & 1)
-      mk = draw(st.integers(0, 9))
-      if mk <= 5:
-        mask = config
-      elif mk <= 7:
-        mask = KNOWN_BITS
-      else:
-        mb = draw(st.integers(0, 63))
-        mask = sum(b for i, (n, b) in enumerate(BITS) if mb >> i & 1)
-      if draw(st.integers(0, 9)) == 9:
-        config |= draw(st.sampled_from([R.OFPPC_NO_STP, 0x80, 0x80000000]))
-        mask |= draw(st.sampled_from([R.OFPPC_NO_STP, 0x80, 0x80000000]))
-      pms.append({"port": nports + 1 if draw(st.integers(0, 11)) == 11 else draw(_phys_port(nports)),
-                  "config": config, "mask": mask, "hw": draw(st.integers(0, 11)) != 11})
-    case["portmods"] = pms
+    case["portmods"] = [draw(_portmod(nports)) for _ in range(draw(st.integers(1, 3)))]
   if draw(st.integers(0, 7)) == 7:
     case["link_down"] = [draw(_phys_port(nports))]
   fm = draw(st.integers(0, 19))
   if fm >= 18:
     case["frag"] = 1 if fm == 18 else 2
-  ns = draw(st.sampled_from([1, 1, 1, 1, 1, 1, 2, 2, 3, 0]))
+  ns = draw(st.sampled_from([1, 1, 1, 1, 1, 2, 2, 2, 3, 0]))
   if ns == 0:
     # OFPP_TABLE scenario: install a flow (its own frame is delivered too), then packet-out through the table
     first = draw(step_strategy(nports, mode=draw(st.sampled_from(["flow", "flow", "flow", "miss"]))))
@@ -1202,6 +1207,25 @@ def case_strategy(draw):
     case["steps"] = [first, second]
   else:
     case["steps"] = [draw(step_strategy(nports)) for _ in range(ns)]
+  # things that happen between deliveries: port-mods, link changes, a transmit that fails once
+  deliveries = case["steps"]
+  if len(deliveries) >= 2:
+    steps = []
+    for i, d in enumerate(deliveries):
+      r = draw(st.integers(0, 9))
+      if i == 0:
+        if r == 9:
+          steps.append({"mode": "fault"})
+      elif r >= 9:
+        steps.append({"mode": "fault"})
+      elif r == 8:
+        steps.append({"mode": "link", "port": draw(_phys_port(nports)), "down": draw(st.booleans())})
+      elif r >= 4:
+        pm = draw(_portmod(nports))
+        pm["mode"] = "portmod"
+        steps.append(pm)
+      steps.append(d)
+    case["steps"] = steps
   if draw(st.booleans()):
     case["stats_port"] = draw(_phys_port(nports))
   return case
@@ -1299,6 +1323,54 @@ def _inapplicable_cases():
           yield {"nports": 3, "steps": [step]}
 
 
+def _sequence_cases():
+  """{first delivery} x {something changes: one config bit of one port set or cleared by port-mod, a link going down or
+  coming back, a transmit failing once during the first delivery, nothing} x {second delivery}: the second delivery must
+  be judged by the port state of its own moment, whatever the first one left behind in the switch."""
+  fr = _grid_frames()
+  ordinary, stp = fr[("A", 0)], fr[("A", 1)]
+  def out(p):
+    return {"a": "output", "port": p, "max_len": 0xffff}
+  kinds = [
+    {"mode": "flow", "match": "all", "in_port": 1, "frame": ordinary, "actions": [out(R.OFPP_FLOOD)]},
+    {"mode": "flow", "match": "in_port", "in_port": 1, "frame": ordinary, "actions": [out(R.OFPP_ALL)]},
+    {"mode": "flow", "match": "all", "in_port": 1, "frame": stp, "actions": [out(R.OFPP_FLOOD)]},
+    {"mode": "flow", "match": "all", "in_port": 1, "frame": ordinary,
+     "actions": [{"a": "set_dl_dst", "v": bytes.fromhex("02aabbccdd02")}, out(2), out(R.OFPP_IN_PORT), out(R.OFPP_CONTROLLER)]},
+    {"mode": "packet_out", "in_port": 1, "frame": ordinary, "actions": [out(R.OFPP_FLOOD)]},
+    {"mode": "packet_out", "in_port": R.OFPP_NONE, "frame": ordinary, "actions": [out(R.OFPP_ALL)]},
+    {"mode": "miss", "in_port": 1, "frame": ordinary},
+    {"mode": "packet_out", "in_port": 1, "frame": ordinary, "actions": [out(R.OFPP_TABLE)]},
+  ]
+  changes = [("none",), ("fault",)]
+  for port in (1, 2, 3):
+    for name, bit in BITS:
+      changes.append(("set", port, bit))
+      changes.append(("clear", port, bit))
+    changes.append(("link", port, True))
+    changes.append(("link", port, False))
+  for first in kinds:
+    for ch in changes:
+      for second in kinds:
+        case = {"nports": 3, "seq": True}
+        mid = []
+        if ch[0] == "fault":
+          case["steps"] = [{"mode": "fault"}, dict(first), dict(second)]
+          yield case
+          continue
+        if ch[0] == "set":
+          mid = [{"mode": "portmod", "port": ch[1], "config": ch[2], "mask": ch[2], "hw": True}]
+        elif ch[0] == "clear":
+          case["portmods"] = [{"port": ch[1], "config": ch[2], "mask": ch[2], "hw": True}]
+          mid = [{"mode": "portmod", "port": ch[1], "config": 0, "mask": ch[2], "hw": True}]
+        elif ch[0] == "link":
+          if not ch[2]:
+            case["link_down"] = [ch[1]]
+          mid = [{"mode": "link", "port": ch[1], "down": ch[2]}]
+        case["steps"] = [dict(first)] + mid + [dict(second)]
+        yield case
+
+
 def plan(tier):
   n = 4000 if tier == "quick" else 64000
   return [
@@ -1306,5 +1378,6 @@ def plan(tier):
     Enum("grid-packet-out", lambda: _grid(tier, "packet_out"), shards=16),
     Enum("grid-miss", lambda: _grid(tier, "miss"), shards=2),
     Enum("inapplicable-rewrites", _inapplicable_cases, shards=2),
+    Enum("sequences", _sequence_cases, shards=16),
     Hyp("generated", case_strategy, examples=n, shards=16),
   ]
